@@ -344,9 +344,26 @@ def coq_loss_case(case, obs):
 # (C) scico.random
 # =====================================================================================
 
-RND_FUNS = ["normal", "uniform", "randn"]
 RND_DT = ["float32", "float64", "complex64"]
-RND_SHAPES = [(2,), (3, 2), (1,), (4,), (2, 2)]
+# values for the parameters of jax.random samplers that have no default
+RND_ARGS = {
+    "ball": {"d": 2}, "beta": {"a": 2.0, "b": 3.0}, "binomial": {"n": 5.0, "p": 0.5},
+    "categorical": {"logits": [0.1, 0.5, 0.4]}, "chisquare": {"df": 3.0}, "choice": {"a": 5},
+    "dirichlet": {"alpha": [1.0, 2.0, 3.0]}, "double_sided_maxwell": {"loc": 0.5, "scale": 2.0},
+    "f": {"dfnum": 3.0, "dfden": 4.0}, "gamma": {"a": 2.0}, "generalized_normal": {"p": 1.5},
+    "geometric": {"p": 0.3}, "loggamma": {"a": 2.0},
+    "multivariate_normal": {"mean": [0.0, 1.0], "cov": [[1.0, 0.25], [0.25, 2.0]]}, "orthogonal": {"n": 2},
+    "pareto": {"b": 2.0}, "poisson": {"lam": 3.0}, "randint": {"minval": 0, "maxval": 10}, "rayleigh": {"scale": 2.0},
+    "t": {"df": 3.0}, "triangular": {"left": 0.0, "mode": 0.5, "right": 2.0},
+    "truncated_normal": {"lower": -1.0, "upper": 2.0}, "wald": {"mean": 1.5},
+    "weibull_min": {"scale": 1.0, "concentration": 2.0},
+}
+
+
+def rnd_names():
+    """every sampler scico.random exports through _wrap / _add_seed, plus the alias randn"""
+    import scico.random as sr
+    return sorted(sr.wrappable_func_names) + ["randn"]
 
 
 def _digest(a) -> int:
@@ -360,22 +377,50 @@ def _kd(k):
     return [int(d[0]), int(d[1])]
 
 
-def gen_rnd_case(rng):
-    fn = rng.randrange(len(RND_FUNS))
-    nested = rng.random() < 0.4
-    shs = [list(rng.choice(RND_SHAPES)) for _ in range(rng.randint(2, 3))] if nested else [list(rng.choice(RND_SHAPES))]
-    d = rng.randrange(3 if RND_FUNS[fn] != "uniform" else 2)
-    # positional key/seed only where the sampler has exactly (key, shape, dtype)
-    positional = RND_FUNS[fn] != "uniform" and rng.random() < 0.5
+def rnd_params(name, dtype_idx):
+    """ordered (name, value) of the jax sampler's parameters after `key` (shape left as None)"""
+    import jax
+    import jax.numpy as jnp
+    jname = "normal" if name == "randn" else name
+    sig = inspect.signature(getattr(jax.random, jname))
+    out = []
+    for k, prm in list(sig.parameters.items())[1:]:
+        if k == "shape":
+            v = None
+        elif k == "dtype" and jname in ("normal", "uniform"):
+            v = np.dtype(RND_DT[dtype_idx]).type
+        elif k in RND_ARGS.get(jname, {}):
+            v = RND_ARGS[jname][k]
+            v = jnp.array(v) if isinstance(v, list) else v
+        elif prm.default is inspect.Parameter.empty:
+            raise Broken(f"scico.random.{name}: no argument value known for required parameter {k}")
+        else:
+            v = prm.default
+        out.append((k, v))
+    return out
+
+
+def gen_rnd_case(rng, fn, mode=None, nested=None, nonzero_key=False):
+    names = rnd_names()
+    name = names[fn]
+    nested = (rng.random() < 0.4) if nested is None else nested
+    shs = [[8], [8]] if nested else [[8]]
+    if rng.random() < 0.15:
+        shs = [list(rng.choice([(2,), (3, 2), (4,)])) for _ in shs]
+    jname = "normal" if name == "randn" else name
+    d = rng.randrange(3 if jname == "normal" else 2) if jname in ("normal", "uniform") else 0
+    # passing mode 0: keyword; 1: key and seed both positional; 2: key last positional (exactly
+    # num_params positional arguments), seed -- if any -- by keyword
+    mode = rng.choice([0, 1, 2, 2]) if mode is None else mode
     r = rng.random()
     key = seed = None
-    if r < 0.4:
-        key = ["seed", rng.randint(0, 5), rng.randint(0, 2)]     # PRNGKey(s) advanced n times
+    if nonzero_key or r < 0.45:
+        key = ["seed", rng.randint(1, 9), rng.randint(0, 2)]     # PRNGKey(s), s != 0, advanced n times
     elif r < 0.7:
         seed = rng.randint(0, 6)
     elif r < 0.85:
-        key, seed = ["seed", rng.randint(0, 5), 0], rng.randint(0, 6)
-    return {"fn": fn, "nested": nested, "shapes": shs, "dtype": d, "positional": positional, "key": key, "seed": seed}
+        key, seed = ["seed", rng.randint(1, 9), 0], rng.randint(0, 6)
+    return {"fn": fn, "name": name, "nested": nested, "shapes": shs, "dtype": d, "mode": mode, "key": key, "seed": seed}
 
 
 def _mk_key(kspec):
@@ -386,15 +431,33 @@ def _mk_key(kspec):
     return k
 
 
+def rnd_call(name, params, shape, mode, key, seed):
+    """call scico.random.<name> with the parameters / key / seed bound as `mode` says"""
+    import scico.random as sr
+    f = getattr(sr, name)
+    vals = [(k, shape if k == "shape" else v) for k, v in params]
+    if name == "randn":                       # randn(shape, dtype=..., key=None, seed=None)
+        vals = vals[:2]
+    if mode == 0:
+        kw = dict(vals)
+        if key is not None:
+            kw["key"] = key
+        if seed is not None:
+            kw["seed"] = seed
+        return f(**kw)
+    pos = [v for _, v in vals]
+    if mode == 1:
+        return f(*pos, key, seed)
+    return f(*pos, key) if seed is None else f(*pos, key, seed=seed)
+
+
 def run_rnd_impl(case, tabs):
     """tabs = (prng, split, gen) dictionaries filled from jax.random directly (the oracle)"""
     import jax
-    import scico.random as sr
     from scico.numpy import BlockArray
-    name = RND_FUNS[case["fn"]]
-    f = getattr(sr, name)
+    name = case["name"]
     jf = getattr(jax.random, "normal" if name == "randn" else name)
-    dt = np.dtype(RND_DT[case["dtype"]]).type
+    params = rnd_params(name, case["dtype"])
     key = None if case["key"] is None else _mk_key(case["key"])
     shape = tuple(tuple(s) for s in case["shapes"]) if case["nested"] else tuple(case["shapes"][0])
     # oracle tables
@@ -404,17 +467,10 @@ def run_rnd_impl(case, tabs):
     effk = key if key is not None else jax.random.PRNGKey(case["seed"] if case["seed"] is not None else 0)
     tabs[1][tuple(_kd(effk))] = _kd(jax.random.split(effk, 2)[0])
     for s in case["shapes"]:
-        tabs[2][(case["fn"], tuple(_kd(effk)), tuple(s), case["dtype"])] = _digest(jf(effk, tuple(s), dt))
+        kw = {k: (tuple(s) if k == "shape" else v) for k, v in params}
+        tabs[2][(case["fn"], tuple(_kd(effk)), tuple(s), case["dtype"])] = _digest(jf(effk, **kw))
     try:
-        if case["positional"]:
-            r, k2 = f(shape, dt, key, case["seed"])
-        else:
-            kw = {}
-            if key is not None:
-                kw["key"] = key
-            if case["seed"] is not None:
-                kw["seed"] = case["seed"]
-            r, k2 = f(shape, dt, **kw)
+        r, k2 = rnd_call(name, params, shape, case["mode"], key, case["seed"])
     except ValueError:
         return None
     isb = isinstance(r, BlockArray)
@@ -426,7 +482,7 @@ def coq_rnd_case(case, obs):
     key = "None" if case["key"] is None else "(Some (%s, %s))" % tuple(zl(t) for t in _kd(_mk_key(case["key"])))
     seed = "None" if case["seed"] is None else f"(Some {zl(case['seed'])})"
     call = (f"({case['fn']}%nat, {'true' if case['nested'] else 'false'}, {shs}, {case['dtype']}%nat, "
-            f"{'true' if case['positional'] else 'false'}, {key}, {seed})")
+            f"{case['mode']}%nat, {key}, {seed})")
     if obs is None:
         o = "None"
     else:
@@ -782,6 +838,7 @@ def operator_catalogue(rng):
     """name -> (builder(jit, dtype) -> operator, input dtype list, linear?)"""
     import scico.numpy as snp
     from scico import linop, operator
+    from scico.linop import optics
     from scico.functional._tvnorm import HaarTransform, FiniteSum
     sh = (3, 4)
     d1 = np.array([[rng.randint(-8, 8) / 4 for _ in range(4)] for _ in range(3)])
@@ -823,6 +880,10 @@ def operator_catalogue(rng):
         "Sum-of-linops": (lambda j, d: _jitif(linop.Diagonal(snp.array(d1.astype(d))) + 2.0 * linop.Identity(sh, input_dtype=dt(d)), j), R, True),
         "HaarTransform": (lambda j, d: HaarTransform(sh, input_dtype=dt(d), jit=j), R, True),
         "FiniteSum": (lambda j, d: FiniteSum(sh, input_dtype=dt(d), jit=j), R, True),
+        "AngularSpectrumPropagator": (lambda j, d: optics.AngularSpectrumPropagator((4, 6), dx=1.0, k0=1.0, z=2.0, jit=j), ["complex64"], True),
+        "FresnelPropagator": (lambda j, d: optics.FresnelPropagator((4, 6), dx=1.0, k0=1.0, z=2.0, jit=j), ["complex64"], True),
+        "FraunhoferPropagator": (lambda j, d: optics.FraunhoferPropagator((4, 6), dx=1.0, k0=1.0, z=36.0, jit=j), ["complex64"], True),
+        "AngularSpectrumPropagator-1d": (lambda j, d: optics.AngularSpectrumPropagator((8,), dx=1.0, k0=1.0, z=2.0, jit=j), ["complex64"], True),
         "Abs": (lambda j, d: operator.Abs(sh, input_dtype=dt(d), jit=j), R + C, False),
         "Angle": (lambda j, d: operator.Angle(sh, input_dtype=dt(d), jit=j), C, False),
         "Exp": (lambda j, d: operator.Exp(sh, input_dtype=dt(d), jit=j), R, False),
@@ -903,6 +964,55 @@ def check_modes_operator(ctx, rng, name, entry, d):
                                "x": np.asarray(blocks_of(x)[0]).tolist()},
                               expected="eager result", observed=why, oracle="eager evaluation on a fresh object")
     return bad
+
+
+def check_jit_option(ctx, rng, cat):
+    """the constructor's jit option: EVERY catalogued class built with jit=True and with jit=False;
+    forward, adj, H, T, gram, gram_op on the same inputs must agree to rounding"""
+    from scico.function import Function
+    import scico.numpy as snp
+    for name in sorted(cat):
+        build, dts, kind = cat[name]
+        d = dts[-1] if not ctx.quick else rng.choice(dts)
+        try:
+            on, off = build(True, d), build(False, d)
+            x = op_input(rng, name, kind, off, d)
+        except Exception as e:  # noqa: BLE001
+            ctx.obligation(False, f"jit on/off check of {name} ({d}) could not be set up", type(e).__name__ + ": " + str(e)[:200])
+            continue
+        y = outcome(lambda: off(x))
+        evals = [("__call__", lambda o: o(x))]
+        if kind is not False and y[0] == "ok":
+            yy = y[1]
+            evals += [("adj", lambda o: o.adj(yy)), ("H", lambda o: o.H(yy)), ("gram", lambda o: o.gram(x)),
+                      ("gram_op", lambda o: o.gram_op(x)), ("H.adj", lambda o: o.H.adj(x))]
+            if not d.startswith("complex"):
+                evals.append(("T", lambda o: o.T(yy)))
+            else:
+                evals.append(("T", lambda o: o.T(yy)))
+        for meth, ev in evals:
+            a, b = outcome(lambda: ev(on)), outcome(lambda: ev(off))
+            ctx.count("jit-option", {"class": name, "dtype": d, "method": meth})
+            ok, why = same_outcome(a, b, TOL[d])
+            if not ok:
+                ctx.violation(f"{name}.{meth}", "object built with jit=True and object built with jit=False disagree",
+                              {"operator": name, "dtype": d, "method": meth, "mode": "constructor jit on vs off",
+                               "x": np.asarray(blocks_of(x)[0]).tolist()},
+                              expected="agreement to rounding", observed=why, oracle="constructor jit option on / off")
+    # scico.function.Function(jit=...)
+    for d in ("float64",):
+        mkf = lambda j: Function(((3, 4), (3, 4)), output_shape=(3, 4), eval_fn=lambda a, b: a * b - 2.0 * b,  # noqa: E731
+                                 input_dtypes=np.float64, jit=j)
+        u, v = dy_array(rng, (3, 4), d), dy_array(rng, (3, 4), d)
+        for meth, ev in (("__call__", lambda o: o(u, v)), ("slice", lambda o: o.slice(0, v)(u)),
+                         ("join", lambda o: o.join()(snp.blockarray([u, v])))):
+            a, b = outcome(lambda: ev(mkf(True))), outcome(lambda: ev(mkf(False)))
+            ctx.count("jit-option", {"class": "Function", "dtype": d, "method": meth})
+            ok, why = same_outcome(a, b, TOL[d])
+            if not ok:
+                ctx.violation(f"Function.{meth}", "object built with jit=True and object built with jit=False disagree",
+                              {"operator": "Function", "dtype": d, "method": meth, "mode": "constructor jit on vs off"},
+                              expected="agreement to rounding", observed=why, oracle="constructor jit option on / off")
 
 
 def functional_catalogue():
@@ -1934,38 +2044,40 @@ def check_param_mutation(ctx, rng):
 # =====================================================================================
 
 def check_random_python(ctx, rng):
-    """python-side facts the table model cannot express: key really advanced, equal inputs give
-    bitwise equal outputs, different keys give different outputs"""
+    """python-side facts for EVERY wrapped sampler: key given as the last positional argument ==
+    key by keyword (bitwise), returned key == split(key)[0] != key, chained draws are not all the
+    same, nested shape => block array of the requested shapes, key + seed raises"""
     import jax
-    import scico.random as sr
     from scico.numpy import BlockArray
-    for name in ("randn", "normal", "uniform", "rademacher", "bernoulli", "laplace"):
-        if name not in sr.wrappable_func_names + ["randn"]:
-            continue
-        f = getattr(sr, name)
-        for shape in ((3, 2), ((2,), (3, 2))):
-            k = jax.random.PRNGKey(rng.randint(0, 1000))
-            try:
-                a, k1 = f(shape, key=k)
-                b, k1b = f(shape, key=k)
-                c, k2 = f(shape, key=k1)
-            except TypeError:
-                continue
+    for name in rnd_names():
+        params = rnd_params(name, 1)
+        for shape in ((8,), ((8,), (8,))):
+            k = jax.random.PRNGKey(rng.randint(1, 1000))
+            r = outcome(lambda: (rnd_call(name, params, shape, 2, k, None), rnd_call(name, params, shape, 0, k, None)))
             ctx.count("random-python", {"fn": name, "shape": shape})
+            if r[0] == "exc":
+                ctx.violation("scico.random." + name, "call with the key as last positional argument / by keyword raises",
+                              {"fn": name, "shape": shape}, expected="a sample", observed=r[1], oracle="Random.v")
+                continue
+            (a, k1), (b, k1b) = r[1]
+            (c, k2) = rnd_call(name, params, shape, 2, k1, None)
+            (d, _k3) = rnd_call(name, params, shape, 2, k2, None)
             same = all(np.array_equal(u, v) for u, v in zip(blocks_of(a), blocks_of(b))) and np.array_equal(k1, k1b)
             adv = not np.array_equal(np.asarray(k1), np.asarray(k)) and np.array_equal(np.asarray(k1), np.asarray(jax.random.split(k, 2)[0]))
-            diff = any(not np.array_equal(u, v) for u, v in zip(blocks_of(a), blocks_of(c)))
+            diff = any(not (np.array_equal(u, v) and np.array_equal(u, w))
+                       for u, v, w in zip(blocks_of(a), blocks_of(c), blocks_of(d)))
             nested_ok = isinstance(a, BlockArray) == isinstance(shape[0], tuple) and \
-                (not isinstance(a, BlockArray) or [tuple(t.shape) for t in a] == [tuple(s) for s in shape])
-            raised = outcome(lambda: f(shape, key=k, seed=1))
-            for okk, what in ((same, "equal (shape, dtype, key) gave different outputs"),
+                (not isinstance(a, BlockArray) or len(a) == len(shape))
+            raised = outcome(lambda: rnd_call(name, params, shape, 0, k, 1))
+            for okk, what in ((same, "key as last positional argument and key by keyword give different outputs / keys"),
                               (adv, "returned key is not split(key)[0] / not advanced"),
-                              (diff, "advanced key gave the same output"),
-                              (nested_ok, "nested shape did not give a block array of the requested block shapes"),
+                              (diff, "three chained draws (x, key = f(..., key)) are all identical"),
+                              (nested_ok, "nested shape did not give a block array with one block per shape"),
                               (raised == ("exc", "ValueError"), "key and seed together did not raise ValueError")):
                 if not okk:
                     ctx.violation("scico.random." + name, what, {"fn": name, "shape": shape},
-                                  expected="pure function of (shape, dtype, key)", observed=what, oracle="Random.v")
+                                  expected="pure function of (shape, dtype, key), binder independent", observed=what,
+                                  oracle="Random.v binder_independent / result_and_key")
 
 
 def run(ctx: Ctx):
@@ -2047,7 +2159,12 @@ def run(ctx: Ctx):
     mark("B-loss")
     # ---------------- (C) random
     tabs = ({}, {}, {})
-    rcases = [gen_rnd_case(rng) for _ in range(ctx.n(60, 600))]
+    nfn = len(rnd_names())
+    # every sampler: key as the last positional argument with a key != PRNGKey(0) (flat), one nested
+    # draw, and seed-dependent further calls
+    rcases = [gen_rnd_case(rng, fn, mode=2, nested=False, nonzero_key=True) for fn in range(nfn)]
+    rcases += [gen_rnd_case(rng, fn, nested=True) for fn in range(nfn)]
+    rcases += [gen_rnd_case(rng, rng.randrange(nfn)) for _ in range(ctx.n(30, 500))]
     ritems, rmeta = [], []
     for c in rcases:
         obs = run_rnd_impl(c, tabs)
@@ -2057,7 +2174,7 @@ def run(ctx: Ctx):
             "Eval vm_compute in (TVNorm.bad_idx (fun c => obs_eqb (run_rcall t_prng t_split t_gen (fst c)) (snd c)) cases 0%nat).")
     for idx in parse_eval_nat_list(coq_eval_shards("C19_rnd", HEADER, [body])[0]):
         c, obs = rmeta[idx]
-        ctx.violation("scico.random." + RND_FUNS[c["fn"]], "output / returned key / raise differs from the _add_seed model",
+        ctx.violation("scico.random." + c["name"], "output / returned key / raise differs from the _add_seed model",
                       c, expected="Random.v fun_alt on the recorded jax.random tables", observed=obs, oracle="run_rcall")
     check_random_python(ctx, rng)
 
@@ -2105,9 +2222,11 @@ def run(ctx: Ctx):
     mark("D-defaults")
     # ---------------- (E) modes
     cat = operator_catalogue(rng)
+    check_jit_option(ctx, rng, cat)      # every class, both tiers
+    mark("E0-jit-option")
     names = sorted(cat)
-    if ctx.quick:      # quick tier: a seed-dependent 60 % of the operator classes (all of them in the thorough tier)
-        names = sorted(rng.sample(names, (len(names) * 6) // 10))
+    if ctx.quick:      # quick tier: the further modes on a seed-dependent 45 % of the operator classes (all in thorough)
+        names = sorted(rng.sample(names, (len(names) * 45) // 100))
         ctx.notes.append("quick tier: operator classes checked in this run: " + ", ".join(names))
     for name in names:
         dts = cat[name][1]
